@@ -293,6 +293,7 @@ def verdict(r1: str, r2: str) -> bool:
 
 
 MAXR2 = int(os.environ.get("H_R2", "3"))
+MINR1 = int(os.environ.get("H_R1MIN", "2"))
 
 
 AGAIN = os.environ.get("H_AGAIN", "0") == "1"
@@ -300,7 +301,7 @@ AGAIN = os.environ.get("H_AGAIN", "0") == "1"
 
 def cached_equals_fresh(r1: str, r2: str, pos: int, ch: str) -> bool:
     """
-    pre: 2 <= len(r1) <= 3 and len(r2) <= MAXR2 and len(r2) != 1
+    pre: MINR1 <= len(r1) <= 3 and len(r2) <= MAXR2 and len(r2) != 1
     pre: all(c in ALPHA for c in r1) and all(c in ALPHA for c in r2)
     pre: 0 <= pos < len(r1) + len(r2) and len(ch) == 1 and ch in ALPHA
     post: _
